@@ -429,6 +429,13 @@ def handle (j : Json) : R Json := do
         let s' := act acc.1 a; (s', acc.2 ++ [st s'])) (MState.fresh, [])
       pure (Json.mkObj [("trace", Json.arr tr.toArray)])
   | "graph" => graphCmd j
+  | "modules" =>
+      let tagS := fun (t : MupType) => match t with | .weight => "weight" | .bias => "bias" | .norm => "norm" | .output => "output"
+      let useS := fun (u : OptionUse) => match u with
+        | .toFunctional f p => s!"functional:{f}.{p}" | .toParent => "parent" | .structural => "structural" | .rejected => "rejected"
+      pure (Json.arr (moduleSpecs.map fun m => Json.mkObj [("name", Json.str m.name),
+        ("options", Json.arr (m.options.map fun (o, u) => Json.arr #[Json.str o, Json.str (useS u)]).toArray),
+        ("params", Json.arr (m.params.map fun (n, t) => Json.arr #[Json.str n, Json.str (tagS t)]).toArray)]).toArray)
   | "groups" => groupsCmd j
   | "zerostep" =>
       let lr ← jflt j "lr"; let wd ← jflt j "wd"; let p ← jflt j "p"
